@@ -161,6 +161,19 @@ GEN(int) @G() {
 	}
 	RETURN
 }`, Drives: []Drive{gen("int", "@G", "")}},
+	{Name: "RangeIntegerOtherTypes", Props: []string{"C04", "C11"}, Src: `
+type @Level uint8
+GEN(int) @G(n int64, m @Level) {
+	for i := range n { // i has the type of n
+		var x int64 = i
+		YIELD(int(x))
+	}
+	for l := range m {
+		var lv @Level = l
+		YIELD(100 + int(lv))
+	}
+	RETURN
+}`, Drives: []Drive{gen("int", "@G", "3, 2")}},
 	{Name: "RangeBodyRedeclares", Props: []string{"C04", "C03"}, Src: `
 // the body of a range statement is its own block: it may redeclare the range variables, and closures made
 // before the redeclaration keep seeing the range variables
